@@ -18,6 +18,12 @@ func parseCacheControl(ccHeader string) (cacheControl, error) {
 	// Parse the Cache-Control header for max-age directive
 	for directive := range strings.SplitSeq(ccHeader, ",") {
 		directive = strings.TrimSpace(directive)
+		// Directive names are case-insensitive (RFC 9111 section 5.2).
+		if name, value, hasValue := strings.Cut(directive, "="); hasValue {
+			directive = strings.ToLower(name) + "=" + value
+		} else {
+			directive = strings.ToLower(directive)
+		}
 		if directive == "no-cache" || directive == "no-store" {
 			cc.noCache = true
 		} else if after, ok := strings.CutPrefix(directive, "max-age="); ok {
